@@ -1,12 +1,14 @@
 package main
 
 import (
+	"encoding/json"
 	"flag"
 	"fmt"
 	"go/ast"
-	"go/token"
 	"os"
+	"os/exec"
 	"path/filepath"
+	"runtime"
 	"sort"
 	"strconv"
 	"strings"
@@ -17,40 +19,52 @@ import (
 	"golang.org/x/tools/go/ssa/ssautil"
 )
 
-func main() {
-	entry := flag.String("entry", "H_Spike_Union", "harness function")
-	hdir := flag.String("harness", "harness", "harness dir")
-	maxPaths := flag.Int("maxpaths", 200000, "path cap")
-	verbose := flag.Bool("v", false, "verbose")
-	flag.BoolVar(&useCVC5, "cvc5", false, "use cvc5 instead of z3")
-	shard := flag.Int("shard", 0, "shard index")
-	of := flag.Int("of", 1, "number of shards")
-	warm := flag.Int("warm", 64, "pending prefixes to reach before sharding")
-	flag.Parse()
-
-	t0 := time.Now()
-	overlay := map[string][]byte{}
-	for _, sub := range []string{"verifh", "verifrt"} {
-		files, _ := filepath.Glob(filepath.Join(*hdir, sub, "*.go"))
-		for _, f := range files {
-			b, _ := os.ReadFile(f)
-			overlay[filepath.Join("/repo/internal", sub, filepath.Base(f))] = b
+func verifRoot() string {
+	if r := os.Getenv("VERIF_ROOT"); r != "" {
+		return r
+	}
+	exe, err := os.Executable()
+	if err == nil {
+		d := filepath.Dir(filepath.Dir(exe))
+		if _, err := os.Stat(filepath.Join(d, "harness")); err == nil {
+			return d
 		}
 	}
-	cfg := &packages.Config{Mode: packages.LoadAllSyntax, Dir: "/repo", Overlay: overlay}
+	return "/verif"
+}
+
+type loaded struct {
+	prog    *ssa.Program
+	hpkg    *ssa.Package
+	enumTab map[string]map[int64]string
+	loadT   time.Duration
+}
+
+func load(root string) *loaded {
+	t0 := time.Now()
+	overlay := map[string][]byte{}
+	add := func(dir, virt string) {
+		files, _ := filepath.Glob(filepath.Join(root, "harness", dir, "*.go"))
+		for _, f := range files {
+			b, _ := os.ReadFile(f)
+			overlay[filepath.Join("/repo/internal", virt, filepath.Base(f))] = b
+		}
+	}
+	add("verifh", "verifh")
+	add("verifrt_sym", "verifrt")
+	cfg := &packages.Config{Mode: packages.LoadAllSyntax, Dir: "/repo", Overlay: overlay,
+		Env: append(os.Environ(), "GOFLAGS=-mod=mod", "GOPROXY=off", "GOSUMDB=off", "GOTOOLCHAIN=local")}
 	pkgs, err := packages.Load(cfg, "./internal/verifh")
 	if err != nil {
-		panic(err)
+		fmt.Fprintln(os.Stderr, "ERROR load:", err)
+		os.Exit(2)
 	}
 	if packages.PrintErrors(pkgs) > 0 {
+		fmt.Fprintln(os.Stderr, "ERROR: /repo (with harness overlay) does not type-check")
 		os.Exit(2)
 	}
 	prog, spkgs := ssautil.AllPackages(pkgs, ssa.InstantiateGenerics)
 	prog.Build()
-	fn := spkgs[0].Func(*entry)
-	if fn == nil {
-		panic("no entry " + *entry)
-	}
 	enumTab := map[string]map[int64]string{}
 	packages.Visit(pkgs, nil, func(p *packages.Package) {
 		if p.PkgPath != "github.com/protobom/protobom/pkg/sbom" {
@@ -68,9 +82,17 @@ func main() {
 				}
 				tab := map[int64]string{}
 				for _, e := range cl.Elts {
-					kv := e.(*ast.KeyValueExpr)
-					k, _ := strconv.ParseInt(kv.Key.(*ast.BasicLit).Value, 10, 64)
-					v, _ := strconv.Unquote(kv.Value.(*ast.BasicLit).Value)
+					kv, ok := e.(*ast.KeyValueExpr)
+					if !ok {
+						continue
+					}
+					kl, ok1 := kv.Key.(*ast.BasicLit)
+					vl, ok2 := kv.Value.(*ast.BasicLit)
+					if !ok1 || !ok2 {
+						continue
+					}
+					k, _ := strconv.ParseInt(kl.Value, 10, 64)
+					v, _ := strconv.Unquote(vl.Value)
 					tab[k] = v
 				}
 				enumTab[strings.TrimSuffix(vs.Names[0].Name, "_name")] = tab
@@ -78,111 +100,138 @@ func main() {
 			})
 		}
 	})
-	_ = token.NoPos
-	loadT := time.Since(t0)
-
-	ex := &Exec{prog: prog, solver: NewSolver(10000), enumTab: enumTab, Unsupported: map[string]int{}, FuncsSeen: map[string]int{}, MaxSteps: 2000000}
-	ex.work = [][]int{{}}
-	abortReasons := map[string]int{}
-	siteReachTotal := map[string]int{}
-	t1 := time.Now()
-	if *of > 1 {
-		// deterministic breadth-first warm-up, identical in every shard
-		for len(ex.work) > 0 && len(ex.work) < *warm {
-			p := ex.work[0]
-			ex.work = ex.work[1:]
-			ex.runPath(fn, p, abortReasons)
-		}
-		var mine [][]int
-		for i, p := range ex.work {
-			if i%*of == *shard {
-				mine = append(mine, p)
-			}
-		}
-		warmPaths := ex.Paths
-		ex.work = mine
-		if *shard != 0 {
-			// only shard 0 reports what the warm-up found
-			ex.Violations = nil
-			ex.Paths = 0
-		}
-		_ = warmPaths
-	}
-	for len(ex.work) > 0 && ex.Paths < *maxPaths {
-		p := ex.work[len(ex.work)-1]
-		ex.work = ex.work[:len(ex.work)-1]
-		ex.runPath(fn, p, abortReasons)
-		for s, n := range ex.siteReach {
-			siteReachTotal[s] += n
-		}
-		if *verbose && ex.Paths%500 == 0 {
-			fmt.Fprintf(os.Stderr, "paths=%d work=%d queries=%d\n", ex.Paths, len(ex.work), ex.solver.Queries)
-		}
-	}
-	el := time.Since(t1)
-	fmt.Printf("entry=%s load=%.1fs explore=%.1fs paths=%d aborted=%d remaining=%d\n", *entry, loadT.Seconds(), el.Seconds(), ex.Paths, ex.Aborted, len(ex.work))
-	fmt.Printf("solver: queries=%d sat=%d unsat=%d unknown=%d time=%.1fs  discharged=%d\n", ex.solver.Queries, ex.solver.Sat, ex.solver.Unsat, ex.solver.Unknown, ex.solver.Time.Seconds(), ex.Discharged)
-	fmt.Printf("query time histogram [<5ms,<20,<100,<500,<2000,>=2000]: %v slowest=%v q=%.300s\n", ex.solver.Hist, ex.solver.Slowest, ex.solver.SlowQ)
-	fmt.Printf("abort reasons: %v\n", abortReasons)
-	fmt.Printf("site reach: %v\n", siteReachTotal)
-	var fs []string
-	for f := range ex.FuncsSeen {
-		fs = append(fs, f)
-	}
-	sort.Strings(fs)
-	fmt.Printf("functions interpreted (%d): %s\n", len(fs), strings.Join(fs, ", "))
-	seen := map[string]bool{}
-	for _, v := range ex.Violations {
-		k := v.Site + v.Kind + v.Msg
-		if seen[k] {
-			continue
-		}
-		seen[k] = true
-		fmt.Printf("VIOLATION site=%s kind=%s msg=%s model=%v trace=%v\n", v.Site, v.Kind, v.Msg, v.Model, v.Trace)
-	}
-	fmt.Printf("violations total=%d distinct=%d\n", len(ex.Violations), len(seen))
-	ex.solver.Close()
+	return &loaded{prog: prog, hpkg: spkgs[0], enumTab: enumTab, loadT: time.Since(t0)}
 }
 
-func (ex *Exec) runPath(fn *ssa.Function, prefix []int, abortReasons map[string]int) {
-	ex.pc = nil
-	ex.known = map[*Term]bool{}
-	ex.synced = false
-	ex.prefix = prefix
-	ex.pos = 0
-	ex.trace = nil
-	ex.nvars = 0
-	ex.varNames = nil
-	ex.nobj = 0
-	ex.steps = 0
-	ex.depth = 0
-	ex.globals = map[*ssa.Global]*Value{}
-	ex.siteReach = map[string]int{}
-	ex.MapAllOrder = false
-	ex.Paths++
-	defer func() {
-		if r := recover(); r != nil {
-			switch e := r.(type) {
-			case pathAbort:
-				ex.Aborted++
-				k := e.reason
-				if i := strings.Index(k, ":"); i > 0 && !strings.HasPrefix(k, "unsupported") {
-					k = k[:i]
-				}
-				abortReasons[k]++
-			case goPanic:
-				var m map[string]string
-				if ex.synced || len(ex.pc) > 0 {
-					ex.sync()
-					if ex.solver.Check(nil) == "sat" {
-						m = ex.solver.Model(ex.varNames)
-					}
-				}
-				ex.Violations = append(ex.Violations, Violation{Site: e.site, Kind: "panic", Msg: e.msg, Model: m, Trace: append([]int{}, ex.trace...)})
-			default:
-				panic(r)
-			}
+func repoHead() string {
+	out, _ := exec.Command("git", "-C", "/repo", "rev-parse", "--short", "HEAD").Output()
+	h := strings.TrimSpace(string(out))
+	st, _ := exec.Command("git", "-C", "/repo", "status", "--porcelain").Output()
+	if len(strings.TrimSpace(string(st))) > 0 {
+		h += "+dirty"
+	}
+	return h
+}
+
+func main() {
+	var cfg Config
+	flag.StringVar(&cfg.Prop, "prop", "", "property id (C01..C20)")
+	flag.StringVar(&cfg.Tier, "tier", "quick", "quick | thorough")
+	flag.IntVar(&cfg.Workers, "workers", runtime.NumCPU(), "worker count")
+	flag.IntVar(&cfg.TimeoutMs, "timeout", 0, "per-query solver timeout in ms (default 10000 quick / 60000 thorough)")
+	flag.IntVar(&cfg.MaxPaths, "maxpaths", 0, "per-harness path cap (safety net)")
+	flag.IntVar(&cfg.MaxSteps, "maxsteps", 3000000, "per-path instruction cap")
+	flag.IntVar(&cfg.MaxDepth, "maxdepth", 120, "call depth cap")
+	flag.BoolVar(&cfg.Verbose, "v", false, "verbose")
+	flag.StringVar(&cfg.Only, "only", "", "run only harnesses whose name contains this")
+	flag.StringVar(&cfg.AssertMode, "assertmode", "now", "now | batch")
+	flag.StringVar(&cfg.CrossCheck, "crosscheck", "", "each | sample | off: second solver (z3) on every / every 8th / no property query proved by cvc5 (default: sample for quick, each for thorough)")
+	replayPath := flag.String("replay", "", "replay a recorded counterexample natively")
+	noSelf := flag.Bool("noselftest", false, "skip the concrete differential self-test")
+	budget := flag.Duration("budget", 0, "wall-clock budget for exploration (0 = none)")
+	flag.Parse()
+	if s := os.Getenv("VERIF_SEED"); s != "" {
+		cfg.Seed, _ = strconv.ParseInt(s, 10, 64)
+	}
+	if t := os.Getenv("VERIF_TIER"); t != "" && cfg.Tier == "" {
+		cfg.Tier = t
+	}
+	if cfg.TimeoutMs == 0 {
+		cfg.TimeoutMs = 10000
+		if cfg.Tier == "thorough" {
+			cfg.TimeoutMs = 60000
 		}
-	}()
-	ex.callFn(fn, nil, nil, "entry")
+	}
+	cfg.ZTimeoutMs = cfg.TimeoutMs / 4
+	if cfg.CrossCheck == "" {
+		cfg.CrossCheck = "sample"
+		if cfg.Tier == "thorough" {
+			cfg.CrossCheck = "each"
+		}
+	}
+	if cfg.MaxPaths == 0 {
+		cfg.MaxPaths = 400000
+		if cfg.Tier == "thorough" {
+			cfg.MaxPaths = 6000000
+		}
+	}
+	if *budget > 0 {
+		cfg.Deadline = time.Now().Add(*budget)
+	}
+	root := verifRoot()
+	t0 := time.Now()
+	ld := load(root)
+
+	var names []string
+	var hs []*Harness
+	for n, m := range ld.hpkg.Members {
+		f, ok := m.(*ssa.Function)
+		if !ok || !strings.HasPrefix(n, "H_") {
+			continue
+		}
+		names = append(names, n)
+		parts := strings.SplitN(n, "_", 3)
+		if len(parts) < 3 {
+			continue
+		}
+		if parts[1] == cfg.Prop && (cfg.Only == "" || strings.Contains(n, cfg.Only)) {
+			hs = append(hs, &Harness{Name: n, Prop: parts[1], Fn: f})
+		}
+	}
+	sort.Slice(hs, func(i, j int) bool { return hs[i].Name < hs[j].Name })
+	nb := &nativeBuild{root: root, names: names}
+	defer nb.cleanup()
+
+	if *replayPath != "" {
+		os.Exit(replayOnly(nb, *replayPath))
+	}
+	if len(hs) == 0 {
+		fmt.Fprintf(os.Stderr, "ERROR: no harness for property %q\n", cfg.Prop)
+		os.Exit(2)
+	}
+
+	sh := &Shared{cfg: cfg, prog: ld.prog, hpkg: ld.hpkg, enumTab: ld.enumTab, known: loadKnown(filepath.Join(root, "known_findings.json")), hs: hs}
+	sh.explore()
+	exploreT := time.Since(t0) - ld.loadT
+
+	rep := &report{cfg: cfg, sh: sh, root: root, nb: nb, loadT: ld.loadT, exploreT: exploreT, head: repoHead()}
+	rep.processViolations()
+	if !*noSelf {
+		rep.selftest(ld)
+	}
+	rep.wall = time.Since(t0)
+	code := rep.finish()
+	nb.cleanup()
+	os.Exit(code)
+}
+
+func replayOnly(nb *nativeBuild, path string) int {
+	b, err := os.ReadFile(path)
+	if err != nil {
+		fmt.Fprintln(os.Stderr, "ERROR:", err)
+		return 2
+	}
+	var rf ReplayFile
+	if err := json.Unmarshal(b, &rf); err != nil {
+		fmt.Fprintln(os.Stderr, "ERROR:", err)
+		return 2
+	}
+	if err := nb.build(); err != nil {
+		fmt.Fprintln(os.Stderr, "ERROR:", err)
+		return 2
+	}
+	r := nb.confirm(&rf, path, 50)
+	fmt.Printf("replay harness=%s site=%s kind=%s reproduced=%v tries=%d failed=%v panic=%q invalid=%q\n", rf.Harness, rf.Site, rf.Kind, r.Reproduced, r.Tries, r.Failed, firstLine(r.Panic), r.Invalid)
+	if r.Reproduced {
+		fmt.Printf("VIOLATION property=%s replay=%s\n", rf.Property, path)
+		return 1
+	}
+	return 0
+}
+
+func firstLine(s string) string {
+	if i := strings.IndexByte(s, '\n'); i >= 0 {
+		return s[:i]
+	}
+	return s
 }
